@@ -11,7 +11,14 @@ Part A  explicit-state model of the conditional machine (models/c10_model.py: st
         group).  Every sequence is rendered with a probe line after every directive and replayed from the start
         through `chibicc -cc1 -E`; the surviving probe ids must equal the model's.  Sequences share a process (batch of
         400, separated by marker lines); every deviating one is re-run alone (a difference chained/alone is a violation).
-        quick: n<=5 (2), n<=3 (3), n<=4 (4), k=1; thorough adds n<=6 without junk variants, n<=4 (3), n<=5 (4), k<=2.
+        (5) the same with LINES WITHOUT EFFECT, rendered without a probe line so that the next directive follows them
+        directly: the null directive `#`, `# /* c */`, `#<tab>// c`, `#pragma c10 p`, `#define Y #else`,
+        `#define W # endif`, `#define Z 1 \<newline>#endif` (spliced), `#undef V`, `#line 77`, and text lines with a
+        non-initial '#' (`P7 # else|endif|if 1`), in active and in skipped groups at every nesting depth <= 3;
+        (6) a pair cover: every model state x every line of (5) x every directive enabled directly after it x suffix.
+        A rejected unit is re-run with all lines of one class removed to name the responsible class (`because-of=`).
+        quick: n<=5 (2), n<=3 (3), n<=4 (4), n<=4 (5), k=1; thorough adds n<=6 without junk variants, n<=4 (3),
+        n<=5 (4), n<=5 (5) with one line per class, k<=2.
 Part B  #if arithmetic: expression trees over 42 atoms (int/unsigned/long-typed spellings, limits, character constants,
         defined, unknown identifiers, macros) x 18 binary / 4 unary operators, depth 2 over a 6 (thorough: 11) atom
         subset, ?: ; three probes each (truth, value, signedness); model = 6.10.1p4 intmax_t/uintmax_t arithmetic,
@@ -20,6 +27,12 @@ Part C  include resolution: one header name in every subset of {includer's dir, 
         d3} (+ the compiler's cwd, which is on no path) x form {"h", <h>, macro-expanded, trailing junk} x every copy
         chaining on with #include_next <h>/"h" x option orders x `-Idir`/`-I dir` x second inclusion and intervening
         lookups of another header (cache / stale-index paths).  Units the model calls invalid must be rejected.
+Part C2 several includers: c10m.h in every non-empty subset of {src, src/la, src/lb, d1, d2} (la, lb on no search path;
+        -Id1 -Id2, thorough also -Id2 -Id1 where both hold a copy); the SAME spelling is named by the primary file, by
+        src/la/i?.h, src/lb/i?.h, d1/i?.h and (nested) src/la/n?.h -> ../lb/i?.h, with the quote and the angle form: every inclusion script of
+        <= 2 steps over these 10 steps + every script of 3 quote-form steps from {primary, la, lb, d1} (thorough: every
+        script of <= 3 steps).  Each lookup must depend on (spelling, form, directory of the file containing the
+        directive) only - never on earlier lookups; units with an unresolvable step must be rejected.
 Part D  re-inclusion shortcuts: 1752 file shapes over {leading text, #ifndef G | #if !defined G | #if !defined(G),
         #define G | none | other, nested conditionals in the body, the guard's own #else/#elif, trailing text /
         second conditional, #pragma once at top / inside / end} x 24 include scripts (2-3 inclusions, G kept /
@@ -35,17 +48,19 @@ from vlib import core
 from models import c10_model as M
 
 LEVEL = "model_checking"
-BUDGET = {"quick": 600, "thorough": 2400}      # global deadlines, not targets: ~6.5 CPU-min / ~30 CPU-min of work
+BUDGET = {"quick": 600, "thorough": 3600}      # global deadlines, not targets: ~7-10 CPU-min / ~45-50 CPU-min of work
 
 TOK = re.compile(r"[A-Za-z_][A-Za-z0-9_]*|\d+|\S")
 # `# 12 "file"` / `#line 12` lines are not tokens of the program: a chibicc that starts to emit them stays comparable
 LINEMARK = re.compile(r'^[ \t]*#[ \t]*(line[ \t]+)?\d+([ \t]+"[^"\n]*"[ \t\d]*)?[ \t]*$', re.M)
+# `#pragma ...` lines: gcc -E passes them through, chibicc drops them; neither is "text selected" by the property
+PRAGMALINE = re.compile(r'^[ \t]*#[ \t]*pragma\b[^\n]*$', re.M)
 CMP = "python3 $VERIF/harness/c10_cmp.py got.txt expected.txt || exit 1"
 GCC = ["gcc", "-E", "-P", "-w", "-nostdinc"]
 
 
 def lex(s):
-    return TOK.findall(LINEMARK.sub("", s))
+    return TOK.findall(LINEMARK.sub("", PRAGMALINE.sub("", s)))
 
 
 def cc_E(chibicc, src, opts=(), cwd=None, limits=False):
@@ -106,16 +121,26 @@ A_BATCH = 400
 CONFIRM = 8
 
 
-def a_classify(seq, exp, st, got):
-    """Deviation class of one case (run alone)."""
+def a_special(s):
+    """Class name of a line that is not part of the conditional skeleton (removing it keeps the unit well-nested)."""
+    return {"inert": s[-1], "htext": "text-line-with-#", "te": "line-ending-in-empty-expansion",
+            "dead": "line-valid-only-when-skipped"}.get(s[0])
+
+
+def a_classify(seq, exp, st, got, because=()):
+    """Deviation class of one case (run alone).  because: classes of lines whose removal makes a rejected unit
+    acceptable (found by a_task; only names the class, never decides the verdict)."""
     if st != 0:
         if isinstance(st, int) and st < 0:
             return "crash"
+        if because:
+            return "rejected|because-of=" + "+".join(because)
         # descriptive only: which special line kinds the rejected (valid) unit contains
-        has = [n for n, k in (("line-ending-in-empty-expansion", "te"), ("line-valid-only-when-skipped", "dead")) if
+        has = [n for n, k in (("line-ending-in-empty-expansion", "te"), ("line-valid-only-when-skipped", "dead"),
+                              ("line-without-effect", "inert"), ("text-line-with-#", "htext")) if
                any(s[0] == k or (k == "dead" and s[0] in ("if", "elif") and s[1] not in M.CONDS) for s in seq)]
         return "rejected" + ("|unit-has-" + "+".join(has) if has else "")
-    if "#" in got:
+    if got.count("#") > exp.count("#"):
         return "directive-printed-as-text"
     junk = [t for t in got if t[0] == "J"]
     rest = [t for t in got if t[0] != "J"]
@@ -127,7 +152,11 @@ def a_classify(seq, exp, st, got):
     gov = ""
     first = (extra + missing)[0] if (extra or missing) else None
     if first and first[1:].isdigit() and int(first[1:]) < len(seq):
-        gov = "|under=#" + seq[int(first[1:])][0]
+        j = int(first[1:])
+        gov = "|under=" + ("text-line-with-#" if seq[j][0] == "htext" else "#" + seq[j][0])
+        # a line without effect (it has no probe of its own) standing directly before the governing directive
+        if j > 0 and seq[j - 1][0] == "inert":
+            gov += "|directly-after=" + seq[j - 1][2]
     if extra and not missing:
         return "skipped-group-processed" + gov
     if missing and not extra:
@@ -180,7 +209,16 @@ def a_task(args):
                 cls_all = "chained-differs-from-alone"
                 ta = tc
             else:
-                cls_all = a_classify(seq, exp, sa, ta or [])
+                because = []
+                if sa != 0:
+                    # name the class of line responsible: drop all lines of one class, see whether the unit is accepted
+                    for c in sorted({a_special(x) for x in seq if a_special(x)}):
+                        seq2 = [x for x in seq if a_special(x) != c]
+                        if seq2:
+                            (s2, t2, e2), = run_batch(cc, wd, [M.render_case(seq2)[0]], prolog=A_PROLOG, name="alone.c")
+                            if s2 == 0:
+                                because.append(c)
+                cls_all = a_classify(seq, exp, sa, ta or [], because)
                 if cls_all == pre:
                     confirmed[pre] = confirmed.get(pre, 0) + 1
             for cls in cls_all.split("&"):
@@ -217,8 +255,9 @@ def a_task(args):
 A_REPLAY = "$CHIBICC -cc1 -E -cc1-input case.c case.c > got.txt 2> err.txt || exit 1\n" + CMP + "\nexit 0"
 
 
-def part_a(ctx, n, n_nojunk, n_te, n_dead, cover_k, maxdepth=3):
-    everything = M.symbols(True) + M.SKIPPED_ONLY
+def part_a(ctx, n, n_nojunk, n_te, n_dead, cover_k, n_inert, n_inert_small, maxdepth=3):
+    noeffect = M.INERT + M.HTEXT
+    everything = M.symbols(True) + M.SKIPPED_ONLY + noeffect
     total_states, total_trans = M.model_graph(maxdepth, everything)
     # the two models (state machine / textual interpreter) are independent implementations: they must agree
     nself = 0
@@ -233,7 +272,14 @@ def part_a(ctx, n, n_nojunk, n_te, n_dead, cover_k, maxdepth=3):
     done = []
     plan = [("cover", everything, None, cover_k), ("full-alphabet-without-te", M.symbols(False), None, n),
             ("with-te", M.symbols(True), {("te",)}, n_te),
-            ("with-lines-valid-only-when-skipped", M.symbols_dead(), set(M.SKIPPED_ONLY), n_dead)]
+            ("with-lines-valid-only-when-skipped", M.symbols_dead(), set(M.SKIPPED_ONLY), n_dead),
+            # every state x every line without effect x every enabled directive DIRECTLY after it x suffix
+            ("pair-cover-line-without-effect-then-directive", everything, None, 1),
+            ("with-lines-without-effect", M.symbols_inert(), set(noeffect), n_inert)]
+    if n_inert_small > n_inert:
+        small = [M.INERT[0], M.INERT[3], M.INERT[4], M.HTEXT[0]]    # one line of each class
+        plan.append(("with-lines-without-effect-one-per-class", M.symbols(False, junk=False) + small, set(small),
+                     n_inert_small))
     if n_nojunk > n:
         plan.append(("no-junk-no-te", M.symbols(False, junk=False), None, n_nojunk))
     for label, syms, need, nn in plan:
@@ -242,7 +288,12 @@ def part_a(ctx, n, n_nojunk, n_te, n_dead, cover_k, maxdepth=3):
             break
         ntask = core.NPROC * 4
         dl = ctx.deadline - 12
-        if label == "cover":
+        if label.startswith("pair-cover"):
+            seqs = list(M.pair_cover(maxdepth, syms, noeffect, [x for x in M.symbols(True, junk=False)
+                                                                if x[0] not in ("define", "undef", "te")]))
+            tasks = [(ctx.chibicc, os.path.join(ctx.work, "a_pair_%d" % i), [], 0, maxdepth, syms, None,
+                      seqs[i::ntask], dl) for i in range(ntask) if seqs[i::ntask]]
+        elif label == "cover":
             # transition cover of the whole model closure (nesting <= maxdepth, any trace length)
             seqs = [s for k in range(1, nn + 1) for s in M.transition_cover(maxdepth, syms, k)]
             tasks = [(ctx.chibicc, os.path.join(ctx.work, "a_cover_%d" % i), [], 0, maxdepth, syms, None,
@@ -284,7 +335,7 @@ def part_a(ctx, n, n_nojunk, n_te, n_dead, cover_k, maxdepth=3):
                 for _ in range(cnt - 1):
                     ctx.violation("C10|cond|" + cls, "")
         if not any(r["cut"] for r in results):
-            done.append("%s %s%d" % (label, "k<=" if label == "cover" else "n<=", nn))
+            done.append("%s %s%d" % (label, "k<=" if "cover" in label else "n<=", nn))
         if label == "cover" and (len(states) != total_states or len(trans) != total_trans):
             raise core.HarnessError("transition cover incomplete: %d/%d states %d/%d transitions"
                                     % (len(states), total_states, len(trans), total_trans))
@@ -293,7 +344,12 @@ def part_a(ctx, n, n_nojunk, n_te, n_dead, cover_k, maxdepth=3):
     ctx.cover(states=len(states), transitions=len(trans), model_states_closure=total_states,
               model_transitions_closure=total_trans, traces_validated_against_impl=agg["judged"],
               a_sequences=agg["traces"], a_process_runs=agg["runs"], a_oracle_disagreements=agg["disagree"],
-              a_chained_vs_alone_differences=agg["chain_diff"], a_bounds=done)
+              a_chained_vs_alone_differences=agg["chain_diff"], a_bounds=done,
+              a_lines_without_effect=[x[1] for x in M.INERT] + ["P # " + x[1] for x in M.HTEXT],
+              a_rule="lines without effect (null directive, null directive + comment, #pragma, #define whose body "
+                     "looks like a directive incl. a spliced one, #undef/#line of something unrelated) are rendered "
+                     "WITHOUT a probe line so that the next directive follows them directly; they and text lines "
+                     "with a non-initial '#' appear in active and skipped groups at every nesting depth <= %d" % maxdepth)
     ex = (("if", "X"), ("define",), ("elif", "defined X"), ("else", 1), ("te",))
     ctx.sample({"part": "A", "sequence": [list(s) for s in ex], "rendering": M.render_case(ex)[0],
                 "expected": M.render_case(ex)[1]})
@@ -775,6 +831,230 @@ def part_c(ctx):
 
 
 # =====================================================================================================
+# Part C2: several includers in different directories name the same header
+# =====================================================================================================
+# One header name (c10m.h) lives in every non-empty subset of M_LOCS; it is named - always with the same spelling - by
+# the primary file and by includer files that live in other directories, with the quote and the angle form, in every
+# order.  6.10.2 / the property: the quote form starts in the directory of the file that CONTAINS the directive, so
+# each lookup depends on (spelling, form, directory of the including file) and on nothing that happened before.
+M_LOCS = ["src", "la", "lb", "d1", "d2"]
+M_DIR = {"src": "src", "la": "src/la", "lb": "src/lb", "d1": "d1", "d2": "d2"}      # la, lb: on no search path
+M_VIAS = ["main", "la", "lb", "d1", "la>lb"]        # who contains the directive (la>lb: la/n?.h includes ../lb/i?.h)
+M_STEPS = [(v, f) for v in M_VIAS for f in "qa"]    # q: #include "c10m.h"   a: #include <c10m.h>
+M_INC = {"q": '#include "c10m.h"\n', "a": "#include <c10m.h>\n"}
+
+
+def m_fixed_files():
+    """The includer files (the same in every tree)."""
+    files = {}
+    for d in ("la", "lb", "d1"):
+        for f in "qa":
+            files["%s/i%s.h" % (M_DIR[d], f)] = "IB_%s\n%sIE_%s\n" % (d, M_INC[f], d)
+    for f in "qa":
+        files["src/la/n%s.h" % f] = 'NB_la\n#include "../lb/i%s.h"\nNE_la\n' % f
+    return files
+
+
+def m_main(script):
+    o = ["M0\n"]
+    for k, (via, f) in enumerate(script):
+        if via == "main":
+            o.append(M_INC[f])
+        elif via == "la>lb":
+            o.append('#include "la/n%s.h"\n' % f)
+        elif via == "d1":
+            o.append('#include "../d1/i%s.h"\n' % f)
+        else:
+            o.append('#include "%s/i%s.h"\n' % (via, f))
+        o.append("M%d\n" % (k + 1))
+    return "".join(o)
+
+
+def m_cases(tier):
+    """(placement, -I order, script).  quick: every script of <= 2 steps over the 10 steps, and every script of 3
+    quote-form steps from {main, la, lb, d1}; thorough: every script of <= 3 steps, both -I orders."""
+    subsets = [tuple(l for i, l in enumerate(M_LOCS) if m >> i & 1) for m in range(1, 32)]
+    full = tier != "quick"
+    scripts = [s for n in (1, 2) for s in itertools.product(M_STEPS, repeat=n)]
+    if full:
+        scripts += list(itertools.product(M_STEPS, repeat=3))
+    else:
+        scripts += list(itertools.product([(v, "q") for v in ("main", "la", "lb", "d1")], repeat=3))
+    for sub in subsets:
+        # the order of -Id1 / -Id2 can only matter when both hold a copy
+        for iorder in ((("d1", "d2"), ("d2", "d1")) if full and "d1" in sub and "d2" in sub else (("d1", "d2"),)):
+            for sc in scripts:
+                yield (sub, iorder, sc)
+
+
+def m_hclass(tok, includer, chain_locs):
+    """Class of an output token relative to the file that contains the directive being resolved."""
+    if tok is None:
+        return "nothing"
+    if tok.startswith("H_"):
+        loc = tok[2:]
+        if includer is not None and os.path.dirname(includer) == "/" + M_DIR[loc]:
+            return "includer-dir"
+        if loc in ("d1", "d2"):
+            return "I%d" % (chain_locs.index(loc) + 1)
+        return "primary-file-dir" if loc == "src" else "dir-of-another-includer"
+    return "main-text" if tok[0] == "M" else "includer-text"
+
+
+def m_task(args):
+    chibicc, wd, cases = args
+    res = {"n": 0, "judged": 0, "disagree": 0, "ref_rejected": 0, "viol": {}, "disagree_ex": None,
+           "outcomes": set(), "runs": 0, "rejections_expected": 0, "dir_dependent": 0, "timeouts": 0}
+    fixed = m_fixed_files()
+    last_tree = None
+    files = {}
+    for case in cases:
+        sub, iorder, script = case
+        chain_locs = list(iorder) + ["sys", "d3"]
+        if sub != last_tree:
+            shutil.rmtree(wd, ignore_errors=True)
+            for d in list(LOCDIR.values()) + list(M_DIR.values()):
+                os.makedirs(os.path.join(wd, d), exist_ok=True)
+            os.symlink(chibicc, os.path.join(wd, "sysroot/chibicc"))
+            files = dict(fixed)
+            for loc in sub:
+                files[M_DIR[loc] + "/c10m.h"] = "H_%s\n" % loc
+            for rel, txt in files.items():
+                with open(os.path.join(wd, rel), "w") as f:
+                    f.write(txt)
+            last_tree = sub
+        main = m_main(script)
+        with open(os.path.join(wd, "src/main.c"), "w") as f:
+            f.write(main)
+        res["n"] += 1
+        allf = {os.path.normpath("/" + k): v for k, v in files.items()}
+        allf["/src/main.c"] = main
+        m = M.Cpp(allf, ["/" + LOCDIR[l] for l in chain_locs])
+        opts = c_options(iorder, False, False, False)
+        argv = ["sysroot/chibicc", "-cc1", "-E"] + opts + ["-cc1-input", "src/main.c", "src/main.c"]
+        sg, og, eg = core.run_limited(GCC + c_options(iorder, False, False, True) + ["src/main.c"], cwd=wd, timeout=20)
+        try:
+            exp = m.run("/src/main.c")
+            rejected = False
+        except M.Reject:
+            exp, rejected = list(m.out), True
+        if rejected != (sg != 0) or (not rejected and lex(og) != exp):
+            res["disagree"] += 1
+            res["disagree_ex"] = res["disagree_ex"] or (case, "rejection" if rejected else exp, lex(og) if sg == 0 else "rejection")
+            continue
+        res["judged"] += 1
+        sc, oc, ec = core.run_limited(argv, cwd=wd, timeout=20)
+        res["runs"] += 1
+        if sc == "timeout":             # nothing here can loop: a timeout is load on the machine, not a verdict
+            res["timeouts"] += 1
+            continue
+        got = lex(oc) if sc == 0 else None
+
+        def spelled_before(evs):
+            return {(e[1], e[2]) for e in evs}
+        if rejected:
+            res["rejections_expected"] += 1
+            if sc != 0:
+                continue
+            d, quote, name, includer = m.pending
+            nth = "repeated-spelling" if (quote, name) in spelled_before(m.events) else "first-lookup-of-spelling"
+            nxt = got[len(exp)] if got[:len(exp)] == exp and len(got) > len(exp) else None
+            sig = "multi-includer|#include%s|%s|want=rejected|got=%s" % (
+                '""' if quote else "<>", nth, m_hclass(nxt, includer, chain_locs) if nxt else "accepted")
+            exp_txt = ["<rejected>"]
+        else:
+            res["outcomes"].add(tuple(exp))
+            hs = {t for t in exp if t.startswith("H_")}
+            if len(hs) > 1:
+                res["dir_dependent"] += 1       # one spelling, several different files selected in one unit
+            if got == exp:
+                continue
+            if got is None:
+                sig = "multi-includer|%s" % ("crash" if isinstance(sc, int) and sc < 0 else
+                                             "timeout" if sc == "timeout" else "rejected")
+            else:
+                i = next((j for j in range(min(len(exp), len(got))) if exp[j] != got[j]), min(len(exp), len(got)))
+                evs = [e for e in m.events if e[5] <= i]
+                e = evs[-1] if evs else None
+                if e and e[2] == "c10m.h":
+                    nth = "repeated-spelling" if (e[1], e[2]) in spelled_before(evs[:-1]) else "first-lookup-of-spelling"
+                    sig = "multi-includer|#include%s|%s|want=%s|got=%s" % (
+                        '""' if e[1] else "<>", nth, m_hclass(exp[i] if i < len(exp) else None, e[6], chain_locs),
+                        m_hclass(got[i] if i < len(got) else None, e[6], chain_locs))
+                else:
+                    sig = "multi-includer|includer-file-lookup|want=%s|got=%s" % (
+                        m_hclass(exp[i] if i < len(exp) else None, None, chain_locs),
+                        m_hclass(got[i] if i < len(got) else None, None, chain_locs))
+            exp_txt = exp
+        v = res["viol"].setdefault(sig, [0, None])
+        v[0] += 1
+        size = sum(len(t) for k, t in files.items() if k.endswith("c10m.h")) * 100 + len(main)
+        if v[1] is None or size < v[1][0]:
+            v[1] = (size, dict(files), main, opts, exp_txt, got, str(sc), ec[-300:], case)
+    shutil.rmtree(wd, ignore_errors=True)
+    return res
+
+
+def part_c2(ctx):
+    cases = list(m_cases(ctx.tier))
+    groups = {}
+    for c in cases:
+        groups.setdefault(c[0], []).append(c)
+    # shard inside one placement too (31 placements only): a task = one placement x a slice of its scripts
+    per = max(1, (core.NPROC * 4) // len(groups))
+    tasks = []
+    for gi, k in enumerate(sorted(groups)):
+        for j in range(per):
+            cs = groups[k][j::per]
+            if cs:
+                tasks.append((ctx.chibicc, os.path.join(ctx.work, "c2_%d_%d" % (gi, j)), cs))
+    agg = {"n": 0, "judged": 0, "disagree": 0, "ref_rejected": 0, "runs": 0, "rejections_expected": 0, "dir_dependent": 0,
+           "timeouts": 0}
+    outcomes = set()
+    dis = None
+    for r in core.pmap(m_task, tasks):
+        for k in agg:
+            agg[k] += r[k]
+        outcomes |= r["outcomes"]
+        dis = dis or r["disagree_ex"]
+        for sig, (cnt, ex) in sorted(r["viol"].items()):
+            size, files, main, opts, exp, got, st, err, case = ex
+            fl = dict(files)
+            fl["src/main.c"] = main
+            fl["opts.txt"] = " ".join(opts) + "\n"
+            fl["expected.txt"] = " ".join(exp) + "\n"
+            fl["observed.txt"] = "status=%s\n%s\n%s\n" % (st, " ".join(got or []), err)
+            ctx.violation("C10|include|" + sig,
+                          "include resolution, several includers: c10m.h in %s, options %s, inclusion script %s; "
+                          "expected %s, got %s (status %s)"
+                          % (",".join(M_DIR[l] for l in case[0]), " ".join(opts),
+                             " ".join("%s:%s" % (v, {"q": '""', "a": "<>"}[f]) for v, f in case[2]),
+                             " ".join(exp), " ".join(got or []), st),
+                          files=fl, replay=C_REPLAY)
+            for _ in range(cnt - 1):
+                ctx.violation("C10|include|" + sig, "")
+    if dis:
+        raise core.HarnessError("part C2: model and gcc disagree on %s: model %s gcc %s" % dis)
+    if agg["judged"] < 500 or len(outcomes) < 50 or not agg["dir_dependent"] or not agg["rejections_expected"]:
+        raise core.HarnessError("part C2 vacuous: %s" % agg)
+    if agg["timeouts"]:
+        ctx.incomplete("part C2: %d runs timed out (machine load) and were not judged" % agg["timeouts"])
+    ctx.cover(c2_cases=agg["n"], c2_judged=agg["judged"], c2_distinct_expected_streams=len(outcomes),
+              c2_units_where_one_spelling_selects_several_files=agg["dir_dependent"],
+              c2_expected_rejections=agg["rejections_expected"], c2_process_runs=agg["runs"],
+              oracle_disagreements=agg["disagree"], traces_validated_against_impl=agg["judged"],
+              c2_rule="c10m.h in every non-empty subset of {src, src/la, src/lb, d1, d2} (-Id1 -Id2%s); inclusion "
+                      "scripts = sequences of steps (who contains the directive: primary file | src/la/i?.h | src/lb/i?.h | "
+                      "d1/i?.h | src/la/n?.h -> ../lb/i?.h) x (form \"\" | <>): %s; expected = lookup relative to the "
+                      "directory of the file containing each directive, independent of earlier lookups"
+                      % (", and -Id2 -Id1 where both hold a copy" if ctx.tier != "quick" else "",
+                         "all of length <= 3" if ctx.tier != "quick" else
+                         "all of length <= 2, and all of length 3 over quote-form steps from {primary, la, lb, d1}"))
+    ctx.sample({"part": "C2", "case": "c10m.h in src/la and src/lb; la then lb then la, quote form",
+                "main": m_main((("la", "q"), ("lb", "q"), ("la", "q"))), "includers": m_fixed_files()})
+
+
+# =====================================================================================================
 # Part D: re-inclusion shortcuts (#pragma once, include-guard detection)
 # =====================================================================================================
 D_BATCH = 120
@@ -1125,12 +1405,13 @@ def run(ctx):
     quick = ctx.tier == "quick"
     parts = os.environ.get("C10_PARTS", "ABCDE")          # debugging aid only; the default runs everything
     n = int(os.environ.get("C10_N", 5))                  # full alphabet; C10_N=6 is ~25 M sequences (~80 CPU-minutes)
-    plan = [("A", lambda: part_a(ctx, n, 0 if quick else 6, 3 if quick else 4, 4 if quick else 5, 1 if quick else 2)), ("B", lambda: part_b(ctx)),
-            ("C", lambda: part_c(ctx)), ("D", lambda: part_d(ctx)), ("E", lambda: part_e(ctx))]
+    plan = [("A", lambda: part_a(ctx, n, 0 if quick else 6, 3 if quick else 4, 4 if quick else 5, 1 if quick else 2,
+                                       4, 4 if quick else 5)), ("B", lambda: part_b(ctx)),
+            ("C", lambda: part_c(ctx)), ("C2", lambda: part_c2(ctx)), ("D", lambda: part_d(ctx)), ("E", lambda: part_e(ctx))]
     secs = {}
     # the cheap parts first so that a deadline can only cut the big sequence enumeration short
     for name, fn in sorted(plan, key=lambda p: p[0] == "A"):
-        if name not in parts:
+        if name[0] not in parts:
             continue
         if ctx.out_of_time(reserve=15):
             ctx.incomplete("part %s not run: deadline" % name)
